@@ -52,9 +52,9 @@ def main():
         dest = m.group(1) if m else None
         if dest:
             dest = re.sub(r"^/tmp/mut-C\d+/", "", dest)
-            dest = re.sub(r"^<worktree>/|^\$WT/|^\./", "", dest)
+            dest = re.sub(r"^<worktree>/|^\$WT/|^\$W/|^\./", "", dest)
             if dest.endswith("/"): dest += "zz_seeded_demo_test.go"
-        m = re.search(r"(go test [^\n]*-run[^\n]*)", md)
+        m = re.search(r"(go test [^\n]*-run[^\n]*)", md) or re.search(r"(go test [^\n]*\./test/\S+)", md)
         cmd = m.group(1).strip() if m else None
         if cmd:
             cmd = re.sub(r"/tmp/mut-C\d+", WT, cmd).split("|")[0].split("#")[0].strip()
